@@ -705,46 +705,69 @@ inline void connect(J& provided, J& required) { provided.out = required.out; req
 #define DETECT(NAME, CALL) \
   template <typename A, typename B, typename = void> struct NAME : std::false_type {}; \
   template <typename A, typename B> struct NAME<A, B, decltype(void(CALL(std::declval<A>(), std::declval<B>())))> : std::true_type {};
-DETECT(via1, NS1::ConnectPorts)
-DETECT(via2, NS2::ConnectPorts)
+DETECT(viaN1, NS1::ConnectPorts)
+DETECT(viaN2, NS2::ConnectPorts)
 DETECT(adl, ConnectPorts)
-template <typename A, typename B> constexpr bool any_way() { return via1<A, B>::value || via2<A, B>::value || adl<A, B>::value; }
-// what the strict port types are for: ports of equal semantics can be tied ...
-static_assert(via1<NS1::Sts<I>, NS1::Sts<I>>::value && via1<NS1::Mts<I>, NS1::Mts<I>>::value, "same semantics connect (first prefix)");
-static_assert(via2<NS2::Sts<I>, NS2::Sts<I>>::value && via2<NS2::Mts<I>, NS2::Mts<I>>::value, "same semantics connect (second prefix)");
-// ... and a multi-threaded port can never be tied to a single-threaded one, whichever copy of the support file is used
-#define NEVER(A, B) static_assert(!any_way<A, B>() && !any_way<B, A>(), "MTS tied to STS: " #A " with " #B);
-NEVER(NS1::Mts<I>, NS1::Sts<I>) NEVER(NS2::Mts<I>, NS2::Sts<I>) NEVER(NS1::Mts<I>, NS2::Sts<I>) NEVER(NS2::Mts<I>, NS1::Sts<I>)
-// nor ports of different interfaces
-NEVER(NS1::Sts<I>, NS1::Sts<J>) NEVER(NS1::Mts<I>, NS1::Mts<J>)
-int main() { I a, b; NS1::ConnectPorts(NS1::Sts<I>{a}, NS1::Sts<I>{b}); return 0; }
+ASSERTS
+int main()
+{
+  // the effect of the tie: the requirer's in-events run the provider's handlers, the provider's out-events the requirer's
+  I prov, req; int hits = 0;
+  prov.in.e = [&] { hits += 1; }; req.out.o = [&] { hits += 10; };
+  NS1::ConnectPorts(NS1::Sts<I>{prov}, NS1::Sts<I>{req});
+  req.in.e(); prov.out.o();
+  return hits == 11 ? 0 : 1;
+}
 '''
 
 
 def strict_typing_check(chk):
-    """C02 at compile time: <prefix>_StrictPort.hh generated for two prefixes; SFINAE detection of every way to call
-    ConnectPorts on every combination of Sts<>/Mts<> of both copies."""
+    """C02 at compile time: <prefix>_StrictPort.hh generated for two prefixes; TLC enumerates (StrictPortCases.tla) every
+    way to call ConnectPorts on every pair of Sts<>/Mts<> values of both copies with the verdict of StrictPort.tla
+    (must / never / either); each becomes a static_assert on a SFINAE detector, and the effect of the tie is run."""
     core.repo_guard()
     from dznpy.support_files import strict_port  # pylint: disable=import-outside-toplevel
     from dznpy.scoping import ns_ids_t  # pylint: disable=import-outside-toplevel
+    import subprocess  # pylint: disable=import-outside-toplevel
     work = core.subdir('strict')
     gens = [strict_port.create_header(None), strict_port.create_header(ns_ids_t(['Other', 'Project']))]
     for gen in gens:
         with open(os.path.join(work, gen.filename), 'w', encoding='utf-8') as fil:
             fil.write(gen.contents)
-    nss = ['::' + '::'.join(g.namespace.items) for g in gens]
-    text = STRICT_TU.replace('HDR1', gens[0].filename).replace('HDR2', gens[1].filename).replace('NS1', nss[0]).replace('NS2', nss[1])
+    nss = {'N1': '::' + '::'.join(gens[0].namespace.items), 'N2': '::' + '::'.join(gens[1].namespace.items)}
+    cases = chk.tlc('StrictPortCases', 'StrictPortCases.cfg', workers=2).emitted()
+    if not cases:
+        raise core.MachineryError('StrictPortCases emitted no cases')
+
+    def typ(prt):
+        return f'{nss[prt["ns"]]}::{"Sts" if prt["sem"] == "STS" else "Mts"}<{prt["itf"]}>'
+    asserts = []
+    for case in cases:
+        chk.count(('strict-typing', json.dumps(case, sort_keys=True)))
+        ta, tb = typ(case['a']), typ(case['b'])
+        ways = [f'via{case["via"]}<{ta}, {tb}>::value']
+        if case['a']['ns'] == case['via']:            # an unqualified call finds that copy through its argument
+            ways.append(f'adl<{ta}, {tb}>::value')
+        if case['verdict'] == 'never':
+            asserts.append(f'static_assert(!({" || ".join(ways)}) && !adl<{ta}, {tb}>::value, "never: {case["via"]}::ConnectPorts({ta}, {tb})");')
+        elif case['verdict'] == 'must':
+            asserts.append(f'static_assert({ways[0]}, "must: {case["via"]}::ConnectPorts({ta}, {tb})");')
+    text = STRICT_TU.replace('HDR1', gens[0].filename).replace('HDR2', gens[1].filename).replace('ASSERTS', '\n'.join(asserts)) \
+        .replace('NS1', nss['N1']).replace('NS2', nss['N2'])
     path = os.path.join(work, 'strict.cc')
     with open(path, 'w', encoding='utf-8') as fil:
         fil.write(text)
-    import subprocess  # pylint: disable=import-outside-toplevel
-    proc = subprocess.run(['g++', '-std=c++17', '-fsyntax-only', '-I', work, path], capture_output=True, text=True, check=False)
-    chk.count(('strict-typing', 1))
+    proc = subprocess.run(['g++', '-std=c++17', '-I', work, path, '-o', os.path.join(work, 'strict')], capture_output=True, text=True, check=False)
     chk.programs += 1
     if proc.returncode != 0:
         first = next((ln for ln in proc.stderr.splitlines() if 'error' in ln), proc.stderr[:200])
-        chk.violation(f'strict port typing: {first[:300]}', {'translation_unit': text, 'compiler_output': proc.stderr[:3000]},
+        chk.violation(f'strict port typing: {first[:300]}', {'translation_unit': text[-4000:], 'compiler_output': proc.stderr[:3000]},
                       {'kind': 'strict-typing'})
+        return
+    run = subprocess.run([os.path.join(work, 'strict')], capture_output=True, text=True, timeout=60, check=False)
+    if run.returncode != 0:
+        chk.violation('ConnectPorts does not tie the two ports as Dezyne\'s connect() does (StrictPort.tla ConnectLaw)',
+                      {'translation_unit': text[-1500:]}, {'kind': 'strict-typing'})
 
 
 def check_c02(tier, seed):
